@@ -2677,16 +2677,16 @@ def c15_ext(ctx, prop):
 
 @job("c15_protocol_unicode", ["C15", "C12"], "quick",
      functions=["sys::trim_protocol (real MIR)"],
-     bounds="every text of 7..=8 chars over the alphabet {'f','i','l','e',':','/','F','a','\u00e9','\u212a' (KELVIN SIGN: lower-cases to a 1-byte char)}; "
+     bounds="every text of 3..=7 chars over the alphabet {'f','i','l','e',':','/','F','a','\u00e9','\u212a' (KELVIN SIGN: lower-cases to a 1-byte char)}; "
             "to_lowercase of the two non-ASCII chars follows the Unicode mapping")
 def c15_protocol_unicode(ctx, prop):
-    return run_text_funcs(ctx, prop, ["trim_protocol"], 8, 0, "c15_protocol_unicode", alpha="file:/Fa\u00e9\u212a", nmin=7)
+    return run_text_funcs(ctx, prop, ["trim_protocol"], 7, 0, "c15_protocol_unicode", alpha="file:/Fa\u00e9\u212a", nmin=3)
 
 
 @job("c15_protocol_unicode9", ["C15", "C12"], "thorough", functions=["sys::trim_protocol (real MIR)"],
-     bounds="as c15_protocol_unicode with texts of exactly 9 chars")
+     bounds="as c15_protocol_unicode with texts of 8..=9 chars")
 def c15_protocol_unicode9(ctx, prop):
-    return run_text_funcs(ctx, prop, ["trim_protocol"], 9, 0, "c15_protocol_unicode9", alpha="file:/Fa\u00e9\u212a", nmin=9)
+    return run_text_funcs(ctx, prop, ["trim_protocol"], 9, 0, "c15_protocol_unicode9", alpha="file:/Fa\u00e9\u212a", nmin=8)
 
 
 @job("c15_protocol_text", ["C15", "C12"], "quick",
@@ -3411,6 +3411,8 @@ TREE2 = {"/": ("d", ["a", "b"]), "/a": ("d", ["a", "b"]), "/a/a": ("d", ["a"]), 
 TREE3 = {"/": ("d", ["a", "b"]), "/a": ("d", ["a", "b"], 0o40750), "/a/a": ("l", "/b", "f", "../b"), "/a/b": ("f", "x", 0o100600), "/b": ("f", "yz")}
 TREE4 = dict(TREE3, **{"/": ("d", ["a", "b", "ab"]), "/ab": ("l", "/a/b", "f", "a/b")})  # + a link in the root that points into /a
 TREE0 = {"/": ("d", [])}  # a fresh filesystem (Memfs::new())
+# + a nested directory whose mode differs from its parent's, holding a file
+TREE5 = dict(TREE3, **{"/a": ("d", ["a", "b", "ab"], 0o40750), "/a/ab": ("d", ["b"], 0o40700), "/a/ab/b": ("f", "q", 0o100640)})
 MEM_ALPHA = "/ab."
 
 # method -> (argument kinds, may it report failure and must then leave the tree untouched?)
@@ -3423,6 +3425,7 @@ MEM_OPS = {
     "readlink": (["path"], False), "readlink_abs": (["path"], False), "chmod": (["path", "mode"], False),
     "copy": (["path2", "path2"], False), "copy_b": (["path2", "path2"], False),
     "chmod_b": (["path"], False), "chown_b": (["path"], False),
+    "write": (["path"], False), "append": (["path"], False), "read": (["path"], False),
 }
 
 
@@ -3740,6 +3743,14 @@ fn fixture3() -> Memfs {
     v
 }
 
+fn fixture5() -> Memfs {
+    let v = fixture3();
+    v.mkdir_m("/a/ab", 0o700).unwrap();
+    v.write_all("/a/ab/b", "q").unwrap();
+    v.chmod("/a/ab/b", 0o640).unwrap();
+    v
+}
+
 fn fixture4() -> Memfs {
     let v = fixture3();
     v.symlink("/ab", "/a/b").unwrap();
@@ -3903,8 +3914,10 @@ def mem_replay_src(f):
         else:
             args.append("0o644")
     call = "v.%s(%s)" % (op, ", ".join(args))
+    if op in ("write", "append", "read"):
+        call += ".map(|_| ())"  # the handle is dropped right away; Box<dyn Write> has no Debug
     tree = f.get("tree") or TREE1
-    fixture_call = "fixture()" if tree is TREE1 else "fixture4()" if tree is TREE4 else "Memfs::new()" if tree is TREE0 else "fixture3()"
+    fixture_call = "fixture()" if tree is TREE1 else "fixture4()" if tree is TREE4 else "Memfs::new()" if tree is TREE0 else "fixture5()" if tree is TREE5 else "fixture3()"
     pre_line, pre_ref = "", ""
     if f.get("pre"):
         pk = MEM_OPS[f["pre"]][0]
@@ -4000,6 +4013,7 @@ _mk_mem_single("c03_mem_remove", ["remove", "remove_all"], 3, 2, "quick")
 _mk_mem_single("c03_mem_symlink", ["symlink"], 3, 2, "quick")
 _mk_mem_single("c03_mem_move", ["move_p"], 3, 2, "quick")
 _mk_mem_single("c03_mem_copy", ["copy"], 3, 2, "quick")
+_mk_mem_single("c03_mem_open", ["write", "append", "read"], 3, 2, "quick")  # opening a handle (also on paths that are refused)
 
 
 @job("c03_mem_fresh", ["C03", "C01", "C12"], "quick", functions=[MEM_FUNCS[0] % "mkfile,mkdir_p,write_all,append_all,remove,remove_all,set_cwd,symlink,move_p,copy"],
@@ -4013,7 +4027,7 @@ def _mk_c09(name, ops, n2, tier, cwds=("/", "/a"), tree=None):
     @job(name, ["C09", "C12"], tier, functions=[MEM_FUNCS[0] % ",".join(sorted(set(o.split("/")[0] for o in ops))) +
                                                                "; Copier::{chmod_all,chmod_dirs,chmod_files,follow,exec}, Memfs::_copy and the Entries traversal it drives (real MIR)"],
          bounds="one call from the tree {/, /a (dir, 0750), /a/a -> /b (link), /a/b (file 'x', 0600), /b (file 'yz')%s} with cwd %s: every (src, dst) pair of texts of 1..=%d chars over "
-                "{'/','a','b','.'}; Copier options %s with any mode <= 0o777" % (", /ab -> /a/b (link)" if tree is TREE4 else "", " and ".join("'%s'" % c for c in cwds), n2,
+                "{'/','a','b','.'}; Copier options %s with any mode <= 0o777" % (", /ab -> /a/b (link)" if tree is TREE4 else ", /a/ab (dir, 0700), /a/ab/b (file 'q', 0640)" if tree is TREE5 else "", " and ".join("'%s'" % c for c in cwds), n2,
                                                                               sorted(set(o.partition("/")[2] for o in ops if "/" in o)) or "-"))
     def f(ctx, prop):
         return run_memfs_single(ctx, prop, ops, n2, n2, cwds=cwds, tag=name, tree=tree or TREE3, pfx="C09")
@@ -4079,6 +4093,7 @@ _mk_c09("c09_copy_dirs", ["copy_b/dirs/0"], 2, "quick")
 _mk_c09("c09_copy_files", ["copy_b/files/0"], 2, "quick")
 _mk_c09("c09_copy_follow", ["copy_b/none/1", "copy_b/all/1"], 2, "quick")
 _mk_c09("c09_copy_follow_rootlink", ["copy_b/none/1"], 2, "quick", cwds=("/",), tree=TREE4)
+_mk_c09("c09_copy_nested", ["copy_b/none/0", "copy_b/files/0", "move_p"], 2, "quick", cwds=("/",), tree=TREE5)
 _mk_c09("c09_move", ["move_p"], 2, "quick")
 _mk_c09("c09_copy3_plain", ["copy_b/none/0"], 3, "thorough", cwds=("/",))
 _mk_c09("c09_copy3_all_follow", ["copy_b/all/1"], 3, "thorough", cwds=("/",))
@@ -4744,9 +4759,13 @@ CONC_RUST_OPS = {
 }
 
 
-def conc_replay_src(f):
+def conc_replay_src(f, rounds=20000):
     """Stress replay: the program is run many times on real threads; every outcome must equal the outcome of
     some sequential order (computed natively by running the orders sequentially)."""
+    return _conc_replay_src(f).replace("0..ROUNDS", "0..%d" % rounds)
+
+
+def _conc_replay_src(f):
     threads = f["threads"]
     orders = merges([[(t, i) for i in range(len(th))] for t, th in enumerate(threads)])
     seq_code = ""
@@ -4777,7 +4796,7 @@ fn replay_body() {
     // %s
     let mut allowed: Vec<(Vec<Vec<String>>, String)> = vec![];
 %s
-    for round in 0..20000 {
+    for round in 0..ROUNDS {
         let fs = std::sync::Arc::new(fixture());
         let barrier = std::sync::Arc::new(std::sync::Barrier::new(%d));
         let mut handles = vec![];
@@ -5416,7 +5435,8 @@ def c08_expected(ex, st, flat, filt, sort, contents_first, emin, emax, follow=Fa
     return seq
 
 
-def run_entries(ctx, prop, tag, shapes, sorts, filters=("none", "dirs", "files"), cfs=(False, True), dmax=3, follows=(False,)):
+def run_entries(ctx, prop, tag, shapes, sorts, filters=("none", "dirs", "files"), cfs=(False, True), dmax=3, follows=(False,), root_idx=None, derived=None):
+    """root_idx: traverse the directory with that name index instead of '/';  derived: {k: b} makes name k = name b followed by one own char"""
     from .mirsym.engine import State
     from .mirsym.values import bv_bin
     t0 = time.time()
@@ -5437,6 +5457,9 @@ def run_entries(ctx, prop, tag, shapes, sorts, filters=("none", "dirs", "files")
             cons += cc + ["(bvuge %s #x00000030)" % c[0].v, "(bvule %s #x0000007a)" % c[0].v]
             names[k] = c
             groups["name%d" % k] = c
+        for k, b in (derived or {}).items():
+            names[k] = list(names[b]) + list(names[k])  # e.g. a sibling whose name has the root directory's name as a string prefix
+            groups["name%d" % k] = names[k]
 
         def sib(node):  # sibling names are distinct
             if node[1] != "d":
@@ -5444,7 +5467,8 @@ def run_entries(ctx, prop, tag, shapes, sorts, filters=("none", "dirs", "files")
             ks = [k[0] for k in node[2]]
             for i in range(len(ks)):
                 for j in range(i + 1, len(ks)):
-                    cons.append("(not (= %s %s))" % (names[ks[i]][0].v, names[ks[j]][0].v))
+                    if len(names[ks[i]]) == len(names[ks[j]]):  # names of different lengths are distinct anyway
+                        cons.append("(not (= %s %s))" % (names[ks[i]][-1].v, names[ks[j]][-1].v))
             for k in node[2]:
                 sib(k)
         sib(shape)
@@ -5453,10 +5477,17 @@ def run_entries(ctx, prop, tag, shapes, sorts, filters=("none", "dirs", "files")
             cons.append("(or (bvule %s_%s (_ bv%d 64)) (= %s_%s #xffffffffffffffff))" % (sid, nm, dmax, sid, nm))
         dmin_v, dmax_v = BV(64, False, "%s_dmin" % sid), BV(64, False, "%s_dmax" % sid)
         memfs, inner, flat = mk_tree_sym(shape, names, order)
+        root_text = T_("/") if root_idx is None else T_("/") + list(names[root_idx])
+        if root_idx is not None:
+            # the reference walks from the chosen directory: depths are relative to it, entries outside are reachable through links only
+            rn = [n for n in flat if n["name"] is names[root_idx] and n["depth"] == 1][0]
+            flat = [rn] + [n for n in flat if n is not rn]
+            for n in flat:
+                n["depth"] = n["depth"] - 1 if n is not rn else 0
         steps = ["entries", "min_depth", "max_depth"] + ([filt] if filt != "none" else []) + ([sort] if sort != "none" else []) + \
                 (["follow"] if fol else []) + (["contents_first"] if cf_ else []) + ["into_iter"]
         desc_opts = "filter=%s sort=%s contents_first=%s follow=%s" % (filt, sort, cf_, fol)
-        meta = dict(opts=dict(filter=filt, sort=sort, contents_first=cf_, follow=fol, listing_order=order, shape=si), where="EntriesIter")
+        meta = dict(opts=dict(filter=filt, sort=sort, contents_first=cf_, follow=fol, listing_order=order, shape=si, root=root_idx), where="EntriesIter")
 
         def mk_cex(st, groups=groups, dmin_v=dmin_v, dmax_v=dmax_v):
             def cex(extra):
@@ -5527,7 +5558,7 @@ def run_entries(ctx, prop, tag, shapes, sorts, filters=("none", "dirs", "files")
             if i < len(steps):
                 s = steps[i]
                 if s == "entries":
-                    st2 = ex.start(f_entries, [BoxRef(st.meta["memfs"]), BoxRef(M.SStr(T_("/")))])
+                    st2 = ex.start(f_entries, [BoxRef(st.meta["memfs"]), BoxRef(M.SStr(list(root_text)))])
                 elif s == "min_depth":
                     st2 = ex.start(fns[s], [cur, dmin_v])
                 elif s == "max_depth":
@@ -5610,6 +5641,7 @@ def c08_replay_src(f, shapes):
             add(k, p)
     add(shape, "")
     dep = lambda k: "usize::MAX" if c.get(k, 0) > 1000 else str(c.get(k, 0))
+    rootpath = "/" if o.get("root") is None else "/" + names[o["root"]]
     chain = ".min_depth(%s).max_depth(%s)" % (dep("min_depth"), dep("max_depth"))
     if o["filter"] != "none":
         chain += ".%s()" % o["filter"]
@@ -5619,7 +5651,7 @@ def c08_replay_src(f, shapes):
         chain += ".follow(true)"
     if o["contents_first"]:
         chain += ".contents_first()"
-    return '''use rivia::prelude::*;
+    return ('''use rivia::prelude::*;
 
 // reference traversal over a plain tree (std only)
 #[derive(Clone)]
@@ -5669,7 +5701,7 @@ fn replay_entries() {
     let (tx, rx) = std::sync::mpsc::channel();
     let v2 = v.clone();
     std::thread::spawn(move || {
-        let got: Vec<String> = v2.entries("/").unwrap()%s.into_iter().take(200)
+        let got: Vec<String> = v2.entries(ROOTPATH).unwrap()%s.into_iter().take(200)
             .map(|e| match e { Ok(x) => x.path().to_str().unwrap().to_string(), Err(e) => if e.to_string().contains("ink looping") { "LinkLooping".to_string() } else { format!("error: {}", e) } }).collect();
         let _ = tx.send(got);
     });
@@ -5678,7 +5710,7 @@ fn replay_entries() {
     let o = Opt { emin: mn, emax: std::cmp::max(mn, mx), filt: %s, sort: %s, cf: %s, follow: %s };
     let m = snapshot(&v);
     let mut exp = vec![];
-    visit(&m, &m["/"], 0, &o, &mut vec![], &mut exp);
+    visit(&m, &m[ROOTPATH], 0, &o, &mut vec![], &mut exp);
     let (mut a, mut b) = (got.clone(), exp.clone());
     a.sort(); b.sort();
     assert_eq!(a, b, "C08: yielded multiset differs from what the options denote (got {:?})", got);
@@ -5692,7 +5724,7 @@ fn replay_entries() {
     }
 }
 ''' % (f["desc"], "\n".join(mk), "\n".join(links), dep("min_depth"), dep("max_depth"), chain, rs_str(o["filter"]), rs_str(o["sort"]),
-       "true" if o["contents_first"] else "false", "true" if o.get("follow") else "false")
+       "true" if o["contents_first"] else "false", "true" if o.get("follow") else "false")).replace("ROOTPATH", rs_str(rootpath))
 
 
 def _mk_c08(name, tier, shapes, sorts, **kw):
@@ -5704,6 +5736,17 @@ def _mk_c08(name, tier, shapes, sorts, **kw):
         return run_entries(ctx, prop, name, shapes, sorts, **kw)
     return f
 
+
+
+# / { 0: dir { 2: link -> /1 }, 1: dir { 3: file } }  with name1 = name0 + one char ("/p" and "/pq"); the traversal starts at /<name0>
+C08_SHAPE_PREFIX = (None, "d", [(0, "d", [(2, "l", [1])]), (1, "d", [(3, "f", [])])])
+
+
+@job("c08_links_subroot", ["C08", "C12"], "quick", functions=C08_FUNCS + ["Memfs::_clone_entries (link targets outside the traversed branch)"],
+     bounds="Memfs only; tree {/{p{link->/pq}, pq{f}}} where the sibling's name has the traversed directory's name as a string prefix (names symbolic), traversal of /p; "
+            "follow in {false,true} x sort in {none,name} x contents_first in {false,true}, min/max depth symbolic in 0..=3 or usize::MAX")
+def c08_links_subroot(ctx, prop):
+    return run_entries(ctx, prop, "c08_links_subroot", [(C08_SHAPE_PREFIX, 4)], ("none", "name"), filters=("none",), dmax=3, follows=(False, True), root_idx=0, derived={1: 0})
 
 
 C08_LINK_SHAPES = {"dlink": (C08_SHAPE_LINK, 4, "{/{d{f}, link->d, f}}"), "loop": (C08_SHAPE_LOOP, 2, "{/{d{link->/}}} (a cycle through the grandparent)"),
@@ -5880,7 +5923,7 @@ def replay_selftest(ctx, prop):
         cex = {"name%d" % i: "pqrst"[i] for i in range(nn)}
         cex.update(min_depth=1, max_depth=(1 << 64) - 1)
         cases.append(("c08_%d" % k, c08_replay_src(dict(desc="selftest", opts=dict(opts, listing_order=k % 2, shape=0), cex=cex), [(shape, nn)])))
-    cases.append(("conc", conc_replay_src(dict(desc="selftest", threads=[["append_n_x"], ["move_b_ab"]], program="selftest"))))
+    cases.append(("conc", conc_replay_src(dict(desc="selftest", threads=[["append_n_x"], ["move_b_ab"]], program="selftest"), rounds=500)))
 
     def run1(c):
         return c[0], native_test(c[1], ctx.logdir, "selftest_%s" % c[0])
